@@ -19,7 +19,7 @@ import dask.bag as db
 import numpy as np
 
 from ..sim import gen_sched, HarnessError
-from ..util import A, L, Result, sig6, digest, random_composition
+from ..util import A, L, Result, sig6, digest, random_composition, rel_diff, is_harness_bug
 from .common import SimRec, gen_simplex, trim, tail
 
 ID = "C19"
@@ -60,6 +60,7 @@ USE_OPS = ["parallel_ubm_stats", "parallel_model_use", "ubm_acc_stats", "ubm_tra
            "jfa_enroll", "isv_enroll_array", "jfa_enroll_array", "isv_score", "jfa_score",
            "isv_score_array", "jfa_score_array", "isv_estimate", "jfa_estimate", "isv_transform",
            "iv_project", "iv_transform", "linear_scoring", "stats_add", "stats_iadd",
+           "stats_accumulate_recycled",
            "lin_transform", "map_ll"]
 NEEDS = {"km_use": "km", "km_varw": "km", "isv_enroll": "isv", "jfa_enroll": "jfa",
          "isv_enroll_array": "isv", "jfa_enroll_array": "jfa", "isv_score": "z_isv",
@@ -115,6 +116,8 @@ def gen_case(rng, tier):
     init_c = sig6(X0[rs.choice(n0, size=k, replace=False)] + rs.randn(k, d) * 0.05 * scale)
     xbig = rng.choice([1025, 4097, 5000, 9000]) if rng.random() < 0.06 else 0
     n_ops = rng.randint(5, 30 if tier == "thorough" else 16)
+    if rng.random() < 0.05:
+        n_ops = rng.randint(45, 90)  # a long-lived service
     ops, have = [], set()
     history_calls = []
     for i in range(n_ops):
@@ -144,6 +147,8 @@ def gen_case(rng, tier):
              "init": rng.choice(["array", "array", "random"]),
              "yform": rng.choice(["list", "array"]),
              "um": rng.random() < 0.8, "uv": rng.random() < 0.5, "uw": rng.random() < 0.5}
+        if name == "stats_accumulate_recycled":
+            o["reps"] = rng.choice([2, 3, 5, 9, 17, 20, 33, 40])
         if name in ("gmm_map_fit", "gmm_ml_fit"):
             o["rejected_first"] = rng.random() < 0.25
         if name in ("isv_fit", "jfa_fit", "isv_fit_array", "jfa_fit_array"):
@@ -357,7 +362,9 @@ def res_digest(r):
         r = r.compute()
     try:
         return obj_digest(r)
-    except Exception:
+    except Exception as _e:
+        if is_harness_bug(_e):
+            raise HarnessError(f"harness bug: {_e!r}")
         return digest(repr(type(r)))
 
 
@@ -424,7 +431,9 @@ def _call(pool, o, rec, label):
             try:
                 g.fit(np.concatenate([np.asarray(X, float), np.asarray(X, float)[:, :1]], axis=1))
                 rec.probe("wrong_dimension_fit_accepted")
-            except Exception:
+            except Exception as _e:
+                if is_harness_bug(_e):
+                    raise HarnessError(f"harness bug: {_e!r}")
                 rec.probe("wrong_dimension_fit_refused_then_same_machine_trained")
                 rec.faults["F10_rejected_call"] = rec.faults.get("F10_rejected_call", 0) + 1
         res = under_sim(lambda: g.fit(dX(X))) if use_da else g.fit(X)
@@ -598,6 +607,31 @@ def _call(pool, o, rec, label):
         for s in sel:
             fresh += s
         return fresh, None
+    if name == "stats_accumulate_recycled":
+        # a long-lived accumulator: every batch's statistics are added in place, then the caller
+        # recycles (overwrites) the batch's statistics object; the accumulator must keep the
+        # sums it was given and never follow the operands afterwards
+        acc = GMMStats(case["c"], case["d"])
+        exp = [0, np.zeros(case["c"]), np.zeros((case["c"], case["d"])),
+               np.zeros((case["c"], case["d"]))]
+        Xs = np.asarray(X, float)
+        for rep in range(o.get("reps", 3)):
+            rows = [(rep * 3 + j) % len(Xs) for j in range(3)]
+            s_ = pool.ubm.acc_stats(Xs[rows].copy())
+            snap = (int(s_.t), np.array(s_.n), np.array(s_.sum_px), np.array(s_.sum_pxx))
+            acc += s_
+            for j in range(4):
+                exp[j] = exp[j] + snap[j]
+            s_.n[:] = 1e3
+            s_.sum_px[:] = -1e6
+            s_.sum_pxx[:] = 1e9
+            got = (int(acc.t), np.asarray(acc.n), np.asarray(acc.sum_px), np.asarray(acc.sum_pxx))
+            if got[0] != exp[0] or any(rel_diff(np.asarray(g, float), np.asarray(e, float),
+                                                scale=1e-300) > 1e-9
+                                       for g, e in zip(got[1:], exp[1:])):
+                raise _ResultFollowsOperand(f"after in-place addition #{rep + 1}")
+        rec.probe("long_lived_accumulator_with_recycled_operands", o.get("reps", 3) >= 16)
+        return acc, None
     if name == "lin_transform":
         t = pool.models["lin"]
         r = t.transform(X)
@@ -610,6 +644,10 @@ class _ConcurrentDiffers(Exception):
 
 
 class _ContainerMutated(Exception):
+    pass
+
+
+class _ResultFollowsOperand(Exception):
     pass
 
 
@@ -705,6 +743,8 @@ def run_case(case, replay=None):
             except HarnessError:
                 raise
             except Exception as e:
+                if is_harness_bug(e):
+                    raise HarnessError(f"harness bug: {e!r}")
                 # the first call succeeded with the same objects, so the caller's data or the
                 # model it used must have changed in a way the second call noticed
                 return Result.violation("repeat-call-differs", {"after_op": i, "repeat_of": j,
@@ -732,10 +772,15 @@ def run_case(case, replay=None):
             except _ContainerMutated as e:
                 return Result.violation("caller-input-modified",
                                         {"after_op": i, "op": name, "what": str(e)}, **rec.fields())
+            except _ResultFollowsOperand as e:
+                return Result.violation("model-aliases-caller-buffer",
+                                        {"after_op": i, "op": name, "what": str(e)}, **rec.fields())
             except _ConcurrentDiffers as e:
                 return Result.violation("concurrent-call-differs-from-sequential",
                                         {"after_op": i, "call": str(e)}, **rec.fields())
             except Exception as e:
+                if is_harness_bug(e):
+                    raise HarnessError(f"harness bug in op {name}: {e!r}")
                 if case.get("readonly") and "read-only" in repr(e):
                     return Result.violation("caller-input-written",
                                             {"after_op": i, "op": name,
